@@ -16,6 +16,9 @@ Chess/Fen.vos Chess/Fen.vok Chess/Fen.required_vos: Chess/Fen.v Chess/Rules.vos
 Chess/FenPlacement.vo Chess/FenPlacement.glob Chess/FenPlacement.v.beautified Chess/FenPlacement.required_vo: Chess/FenPlacement.v Chess/Rules.vo Chess/Fen.vo Chess/TextProofs.vo Base/NIter.vo
 Chess/FenPlacement.vio: Chess/FenPlacement.v Chess/Rules.vio Chess/Fen.vio Chess/TextProofs.vio Base/NIter.vio
 Chess/FenPlacement.vos Chess/FenPlacement.vok Chess/FenPlacement.required_vos: Chess/FenPlacement.v Chess/Rules.vos Chess/Fen.vos Chess/TextProofs.vos Base/NIter.vos
+Chess/FenProofs.vo Chess/FenProofs.glob Chess/FenProofs.v.beautified Chess/FenProofs.required_vo: Chess/FenProofs.v Chess/Rules.vo Chess/Fen.vo Chess/TextProofs.vo Chess/FenPlacement.vo Base/NIter.vo
+Chess/FenProofs.vio: Chess/FenProofs.v Chess/Rules.vio Chess/Fen.vio Chess/TextProofs.vio Chess/FenPlacement.vio Base/NIter.vio
+Chess/FenProofs.vos Chess/FenProofs.vok Chess/FenProofs.required_vos: Chess/FenProofs.v Chess/Rules.vos Chess/Fen.vos Chess/TextProofs.vos Chess/FenPlacement.vos Base/NIter.vos
 Chess/History.vo Chess/History.glob Chess/History.v.beautified Chess/History.required_vo: Chess/History.v Chess/Rules.vo
 Chess/History.vio: Chess/History.v Chess/Rules.vio
 Chess/History.vos Chess/History.vok Chess/History.required_vos: Chess/History.v Chess/Rules.vos
@@ -34,6 +37,12 @@ Chess/San.vos Chess/San.vok Chess/San.required_vos: Chess/San.v Chess/Rules.vos 
 Chess/TextProofs.vo Chess/TextProofs.glob Chess/TextProofs.v.beautified Chess/TextProofs.required_vo: Chess/TextProofs.v Chess/Rules.vo Chess/Fen.vo Chess/RulesFacts.vo Base/FileRank.vo
 Chess/TextProofs.vio: Chess/TextProofs.v Chess/Rules.vio Chess/Fen.vio Chess/RulesFacts.vio Base/FileRank.vio
 Chess/TextProofs.vos Chess/TextProofs.vok Chess/TextProofs.required_vos: Chess/TextProofs.v Chess/Rules.vos Chess/Fen.vos Chess/RulesFacts.vos Base/FileRank.vos
+Chess/ValidStep.vo Chess/ValidStep.glob Chess/ValidStep.v.beautified Chess/ValidStep.required_vo: Chess/ValidStep.v Chess/Rules.vo Chess/RulesFacts.vo Base/Geom.vo Base/FileRank.vo Base/Bits.vo
+Chess/ValidStep.vio: Chess/ValidStep.v Chess/Rules.vio Chess/RulesFacts.vio Base/Geom.vio Base/FileRank.vio Base/Bits.vio
+Chess/ValidStep.vos Chess/ValidStep.vok Chess/ValidStep.required_vos: Chess/ValidStep.v Chess/Rules.vos Chess/RulesFacts.vos Base/Geom.vos Base/FileRank.vos Base/Bits.vos
+Chess/ValidStepEp.vo Chess/ValidStepEp.glob Chess/ValidStepEp.v.beautified Chess/ValidStepEp.required_vo: Chess/ValidStepEp.v Chess/Rules.vo Chess/RulesFacts.vo Chess/ValidStep.vo Base/Geom.vo Base/FileRank.vo Base/Bits.vo
+Chess/ValidStepEp.vio: Chess/ValidStepEp.v Chess/Rules.vio Chess/RulesFacts.vio Chess/ValidStep.vio Base/Geom.vio Base/FileRank.vio Base/Bits.vio
+Chess/ValidStepEp.vos Chess/ValidStepEp.vok Chess/ValidStepEp.required_vos: Chess/ValidStepEp.v Chess/Rules.vos Chess/RulesFacts.vos Chess/ValidStep.vos Base/Geom.vos Base/FileRank.vos Base/Bits.vos
 Engine/Book.vo Engine/Book.glob Engine/Book.v.beautified Engine/Book.required_vo: Engine/Book.v Engine/Encoding.vo
 Engine/Book.vio: Engine/Book.v Engine/Encoding.vio
 Engine/Book.vos Engine/Book.vok Engine/Book.required_vos: Engine/Book.v Engine/Encoding.vos
@@ -292,9 +301,9 @@ Props/Properties_C14.vos Props/Properties_C14.vok Props/Properties_C14.required_
 Props/Properties_C15.vo Props/Properties_C15.glob Props/Properties_C15.v.beautified Props/Properties_C15.required_vo: Props/Properties_C15.v Chess/Rules.vo Engine/Classify.vo Engine/RepAbs.vo Engine/RepRefineLegal.vo Engine/ClassifyProofs.vo
 Props/Properties_C15.vio: Props/Properties_C15.v Chess/Rules.vio Engine/Classify.vio Engine/RepAbs.vio Engine/RepRefineLegal.vio Engine/ClassifyProofs.vio
 Props/Properties_C15.vos Props/Properties_C15.vok Props/Properties_C15.required_vos: Props/Properties_C15.v Chess/Rules.vos Engine/Classify.vos Engine/RepAbs.vos Engine/RepRefineLegal.vos Engine/ClassifyProofs.vos
-Props/Properties_C16.vo Props/Properties_C16.glob Props/Properties_C16.v.beautified Props/Properties_C16.required_vo: Props/Properties_C16.v Engine/Encoding.vo Engine/EncodingProofs.vo Chess/Rules.vo Chess/Fen.vo Chess/TextProofs.vo Engine/UciSession.vo
-Props/Properties_C16.vio: Props/Properties_C16.v Engine/Encoding.vio Engine/EncodingProofs.vio Chess/Rules.vio Chess/Fen.vio Chess/TextProofs.vio Engine/UciSession.vio
-Props/Properties_C16.vos Props/Properties_C16.vok Props/Properties_C16.required_vos: Props/Properties_C16.v Engine/Encoding.vos Engine/EncodingProofs.vos Chess/Rules.vos Chess/Fen.vos Chess/TextProofs.vos Engine/UciSession.vos
+Props/Properties_C16.vo Props/Properties_C16.glob Props/Properties_C16.v.beautified Props/Properties_C16.required_vo: Props/Properties_C16.v Engine/Encoding.vo Engine/EncodingProofs.vo Chess/Rules.vo Chess/Fen.vo Chess/TextProofs.vo Engine/UciSession.vo Chess/FenProofs.vo
+Props/Properties_C16.vio: Props/Properties_C16.v Engine/Encoding.vio Engine/EncodingProofs.vio Chess/Rules.vio Chess/Fen.vio Chess/TextProofs.vio Engine/UciSession.vio Chess/FenProofs.vio
+Props/Properties_C16.vos Props/Properties_C16.vok Props/Properties_C16.required_vos: Props/Properties_C16.v Engine/Encoding.vos Engine/EncodingProofs.vos Chess/Rules.vos Chess/Fen.vos Chess/TextProofs.vos Engine/UciSession.vos Chess/FenProofs.vos
 Props/Properties_C17.vo Props/Properties_C17.glob Props/Properties_C17.v.beautified Props/Properties_C17.required_vo: Props/Properties_C17.v Chess/Rules.vo Chess/San.vo
 Props/Properties_C17.vio: Props/Properties_C17.v Chess/Rules.vio Chess/San.vio
 Props/Properties_C17.vos Props/Properties_C17.vok Props/Properties_C17.required_vos: Props/Properties_C17.v Chess/Rules.vos Chess/San.vos
